@@ -202,6 +202,7 @@ class Layout(object):
         self.adjacent_len = None
         self.nulls = 0
         self.prop_tlv = False
+        self.hdr_straddle = 0     # NDEF TLV T byte this many usable bytes in front of blocks Dh..Fh (0: header contiguous)
 
     def value_addrs(self, n):
         """addresses the value bytes of a message of length n occupy, and the terminator address (or None)"""
@@ -242,7 +243,6 @@ def place_message(image, free, msg, terminator=True):
     hdr = bytes([NDEF_T, n]) if n < 255 else bytes([NDEF_T, 0xFF, n >> 8, n & 0xFF])
     need = len(hdr) + n
     assert need <= len(free), (need, len(free))
-    assert free[:4] == list(range(free[0], free[0] + 4))
     for a, b in zip(free, hdr + bytes(msg)):
         image[a] = b
     if terminator and need < len(free):
@@ -307,7 +307,7 @@ RANGE_CLASSES = ["factory", "before", "inside", "inside", "tail", "beyond-data",
 
 
 def gen_dynamic(rng, phys=None, data_size=None, nulls=None, n_lock=None, n_mem=None, old_len=None, align=None,
-                hr0=None, hr1=None, classes=None, terminator=None, prop=None, long_prop=None):
+                hr0=None, hr1=None, classes=None, terminator=None, prop=None, long_prop=None, hdr_straddle=None):
     L = Layout()
     L.dynamic = True
     L.phys = phys or rng.choice([256, 384, 512, 512, 512, 1024, 2048])
@@ -399,7 +399,25 @@ def gen_dynamic(rng, phys=None, data_size=None, nulls=None, n_lock=None, n_mem=N
             pos += 1
         image[pos] = NULL_T
         pos += 1
-    while any(a in reserved for a in range(pos, pos + 4)):
+    # ---- header straddle: the NDEF TLV's T byte 1..3 usable bytes in front of blocks Dh..Fh, so that its length
+    # field continues behind the reserved blocks (a proprietary TLV fills the gap) ---------------------
+    L.hdr_straddle = 0
+    want = (align is None and rng.random() < 0.08) if hdr_straddle is None else hdr_straddle
+    if want and align is None:
+        k = rng.randrange(1, 4) if want is True else int(want)
+        t_at = 104 - k
+        gap = [a for a in range(pos + 2, t_at) if a not in reserved]
+        if (pos + 2 <= t_at and pos not in reserved and pos + 1 not in reserved and len(gap) < 255
+                and not any(a in reserved for a in range(t_at, 104))
+                and len([a for a in range(t_at, data_size) if a not in reserved]) >= 6):
+            image[pos] = PROP_T
+            image[pos + 1] = len(gap)
+            for a in gap:
+                image[a] = rng.choice([0x00, 0x03, 0xFE, 0x01, rng.randrange(256)])
+            pos = t_at
+            L.hdr_straddle = k
+            L.prop_tlv = True
+    while not L.hdr_straddle and any(a in reserved for a in range(pos, pos + 4)):
         if pos not in reserved:
             image[pos] = NULL_T          # a usable byte in front of a reserved one: filler NULL TLV
         pos += 1
@@ -416,6 +434,7 @@ def gen_dynamic(rng, phys=None, data_size=None, nulls=None, n_lock=None, n_mem=N
             if cap < 1:
                 break
             n = rng.choice([1, 2, 7, 8, rng.randrange(1, cap + 1), rng.randrange(1, cap + 1), min(cap, 254), min(cap, 255), cap])
+            n = min(n, cap)
             hdr = 2 if n < 255 else 4
             last = free[hdr + n - 1]
             want = last + 1
